@@ -7,6 +7,7 @@ CONSTANTS
     MaxOps = 3
     MaxBlocks = 3
     MaxDepth = 2
+    RecordHist = FALSE
     MaxFail = 1
 VIEW view
 CONSTRAINT Bound
